@@ -443,3 +443,12 @@ package resolver
 //@   assert at call (*middleware/resolver.Resolver).searchCache#1: arg2 == rs.req.CheckingDisabled
 //@   assert at call (*middleware/resolver.Resolver).answer#1: arg2 == rs.req && arg3 == lastret("(*middleware/resolver.Resolver).setTags") && !lastret("(*middleware/resolver.Resolver).minimize", 1)
 //@   assert at call (*middleware/resolver.Resolver).authority#1: arg2 == rs.req && arg3 == lastret("(*middleware/resolver.Resolver).setTags")
+//@
+//@ # ---- C09: the self-signature check of a revocation uses ONLY the revoked key (a one-key key set under its own tag)
+//@ # over a copy of the fetched answer
+//@ func revocationIsSelfSignedWithWork
+//@   abstract
+//@   nosafety all pre
+//@   assert at call middleware/resolver/dnssec.VerifyRRSIGWithWork#1: revokedKey != nil && arg3 == work && arg0 == revokedKey.Hdr.Name
+//@   assert at mapupdate#1: len(value) == 1 && value[0] == revokedKey
+//@   assert at return#1: !result0 && result1 != nil
